@@ -196,8 +196,8 @@ func (lm *levelManager) searchLowerBound(key types.Key) (types.Entry, bool) {
 				continue
 			}
 
-			// determine which data block the key is in
-			dataBlockHandle, ok := th.dataBlockIndex.Search(key)
+			// determine the first data block that may hold an entry greater or equal than key
+			dataBlockHandle, ok := th.dataBlockIndex.SearchLowerBound(key)
 			if !ok {
 				// not in this sstable, search next one
 				continue
